@@ -85,6 +85,9 @@ func NewParser(srcPath, dstPath string) (*Parser, error) {
 	if fileSrc == nil && parseErr != nil {
 		return nil, logger.Errorf("%v: %v", srcPath, parseErr)
 	}
+	if fileSrc == nil {
+		return nil, logger.Errorf("%v: the setup file was not loaded (is it also the output path?)", srcPath)
+	}
 	return &Parser{
 		srcPath: fileSet.Position(fileSrc.Pos()).Filename,
 		fset:    fileSet,
